@@ -117,6 +117,31 @@ pub fn run(seed: u64, n: usize, max_len: usize, out: &str) -> Result<()> {
     }
     strings.push(t);
   }
+  // several (possibly stuttered) envelopes in one script, with noise between them
+  for _ in 0..n {
+    let mut t: Vec<&str> = Vec::new();
+    for _ in 0..rng.gen_range(1..4) {
+      for _ in 0..rng.gen_range(0..3) {
+        t.push(["X", "P", "N", "ENDIF", "IF"][rng.gen_range(0..5)]);
+      }
+      for _ in 0..rng.gen_range(1..4) {
+        t.push("Z");
+      }
+      if rng.gen_bool(0.9) {
+        t.push("IF");
+      }
+      if rng.gen_bool(0.9) {
+        t.push("ORD");
+      }
+      for _ in 0..rng.gen_range(0..5) {
+        t.push(["P", "N", "Z", "ORD", "P", "P"][rng.gen_range(0..6)]);
+      }
+      if rng.gen_bool(0.9) {
+        t.push("ENDIF");
+      }
+    }
+    strings.push(t);
+  }
   for toks in strings {
     let tx = tx_with_script(vec![script_of(&toks)]);
     let r = std::panic::catch_unwind(move || RawEnvelope::from_transaction(&tx));
